@@ -28,10 +28,14 @@ type Site struct {
 }
 
 type Result struct {
-	Sites       []Site
-	NS, NF, NO  int
-	NLock       int
-	NChan       int // channel operations turned into polling loops
+	Sites      []Site
+	NS, NF, NO int
+	NLock      int
+	NChan      int // channel operations and Cond waits turned into polling loops
+	// Unmodelled: places where a goroutine can park in a way the one-runner scheduler cannot take
+	// over (select without default, receive with a value, ...). A worker that stalls on sources
+	// that have such places is an infrastructure failure of the check, not a verdict.
+	Unmodelled  []string
 	NLoop       int
 	Files       int
 	OverlayPath string
@@ -162,6 +166,46 @@ func deepAtomic(n ast.Node) bool {
 	return found
 }
 
+// parksUnmodelled names the way statement s (not its nested blocks) can park its goroutine outside
+// the scheduler's control, or returns "".
+func parksUnmodelled(s ast.Stmt) string {
+	switch x := s.(type) {
+	case *ast.SelectStmt:
+		for _, c := range x.Body.List {
+			if cc, ok := c.(*ast.CommClause); ok && cc.Comm == nil {
+				return "" // has a default clause: does not park
+			}
+		}
+		return "select without default"
+	case *ast.SendStmt:
+		return "channel send of a computed value"
+	case *ast.RangeStmt:
+		return "" // (ranging over a channel cannot be told from the syntax; not seen in this package)
+	}
+	why := ""
+	ast.Inspect(s, func(m ast.Node) bool {
+		if m == nil || why != "" {
+			return false
+		}
+		switch y := m.(type) {
+		case *ast.BlockStmt, *ast.FuncLit:
+			if m != ast.Node(s) {
+				return false
+			}
+		case *ast.UnaryExpr:
+			if y.Op == token.ARROW {
+				why = "channel receive with a value"
+			}
+		case *ast.CallExpr:
+			if se, ok := y.Fun.(*ast.SelectorExpr); ok && se.Sel.Name == "Wait" && len(y.Args) == 0 {
+				why = "Wait() on a computed receiver or inside a larger statement"
+			}
+		}
+		return true
+	})
+	return why
+}
+
 // plainValue: an expression that can be evaluated again without side effects.
 func plainValue(e ast.Expr) bool {
 	switch x := e.(type) {
@@ -230,12 +274,16 @@ const hooksSrc = `package s2
 
 // This file exists only in the verification overlay; it is never part of /repo.
 
-import "runtime"
+import (
+	"runtime"
+	"sync"
+)
 
 var (
 	VerifYieldFn        func(site int)
 	VerifBeforeLockFn   func(p any, read bool, site int)
 	VerifBeforeUnlockFn func(p any, read bool, site int)
+	VerifCondFn         func(c any, op int, site int)
 )
 
 func verifYield(site int) {
@@ -250,6 +298,38 @@ func verifPoll(site int) {
 		f(site)
 	}
 	runtime.Gosched()
+}
+
+// verifCondWait emulates x.Wait() for a sync.Cond (see the instrumenter) and reports whether it did.
+func verifCondWait(x any, site int) bool {
+	var l sync.Locker
+	switch c := x.(type) {
+	case *sync.Cond:
+		if c != nil {
+			l = c.L
+		}
+	}
+	if l == nil {
+		return false
+	}
+	verifBeforeUnlock(l, false, site)
+	l.Unlock()
+	if f := VerifCondFn; f != nil {
+		f(x, 0, site) // parks the task in the simulator until the Cond is signalled
+	}
+	runtime.Gosched()
+	verifBeforeLock(l, false, site)
+	l.Lock()
+	return true
+}
+
+// verifCondSignal tells the simulator that x (if it is a sync.Cond) is about to be signalled.
+func verifCondSignal(x any, site int) {
+	if c, ok := x.(*sync.Cond); ok && c != nil {
+		if f := VerifCondFn; f != nil {
+			f(c, 1, site)
+		}
+	}
 }
 
 func verifBeforeLock(p any, read bool, site int) {
@@ -359,12 +439,35 @@ func Instrument(srcDir, outDir, keyDir string) (*Result, error) {
 					return
 				}
 			}
+			if es, ok := s.(*ast.ExprStmt); ok {
+				if ce, ok := es.X.(*ast.CallExpr); ok && len(ce.Args) == 0 {
+					if se, ok := ce.Fun.(*ast.SelectorExpr); ok && (se.Sel.Name == "Signal" || se.Sel.Name == "Broadcast") && plainValue(se.X) {
+						loc := fmt.Sprintf("%s:%d:%s:condsignal", base, line, fname)
+						add(s.Pos(), fmt.Sprintf("verifYield(%d); verifCondSignal(%s, %d); ", site("pre:"+loc, 0, false), exprText(se.X), site("signal:"+loc, 0, false)))
+						return
+					}
+					if se, ok := ce.Fun.(*ast.SelectorExpr); ok && se.Sel.Name == "Wait" && plainValue(se.X) {
+						// x.Wait(): if x is a sync.Cond, the wait is modelled: release the lock, park in the
+						// simulator until the Cond is signalled, take the lock again;
+						// anything else (a WaitGroup waits for goroutines the library started itself,
+						// which the scheduler does not hold back) waits for real
+						loc := fmt.Sprintf("%s:%d:%s:condwait", base, line, fname)
+						add(s.Pos(), fmt.Sprintf("if !verifCondWait(%s, %d) { ", exprText(se.X), site("spin:"+loc, 0, true)))
+						add(s.End(), " }")
+						res.NChan++
+						return
+					}
+				}
+			}
 			if ss, ok := s.(*ast.SendStmt); ok && plainValue(ss.Value) && plainValue(ss.Chan) {
 				loc := fmt.Sprintf("%s:%d:%s:chansend", base, line, fname)
 				add(s.Pos(), "for verifWait := true; verifWait; { select { case ")
 				add(s.End(), fmt.Sprintf(": verifWait = false; default: verifPoll(%d) } }", site("spin:"+loc, 0, true)))
 				res.NChan++
 				return
+			}
+			if why := parksUnmodelled(s); why != "" {
+				res.Unmodelled = append(res.Unmodelled, fmt.Sprintf("%s:%d:%s: %s", base, line, fname, why))
 			}
 			kind, _ := containsSync(s)
 			if fs, ok := s.(*ast.ForStmt); ok && fs.Body != nil && deepAtomic(fs) {
